@@ -30,7 +30,7 @@ ANCHORS = [
     "acnportal.acnsim.events.event_queue:EventQueue._from_dict",
     "acnportal.acnsim.events.event:Event.__lt__",
 ]
-REQUIRED = ["histories_under_warnings_as_errors", "fractional_timestamps_of_mixed_float_types", "ctor_events_as:generator", "ctor_events_as:iter", "bulk_queues_over_1000_pending", "returned_lists_mutated_by_the_client", "exhaustive_sequences", "random_ops", "json_round_trips", "op:get_event", "op:get_current_events",
+REQUIRED = ["histories_under_warnings_as_errors", "op:add_events_from_a_generator_failing_part_way", "fractional_timestamps_of_mixed_float_types", "ctor_events_as:generator", "ctor_events_as:iter", "bulk_queues_over_1000_pending", "returned_lists_mutated_by_the_client", "exhaustive_sequences", "random_ops", "json_round_trips", "op:get_event", "op:get_current_events",
             "op:add_events_bulk", "op:constructor_events", "ties_seen", "sim_runs_monitored", "sim_json_round_trips",
             "bulk_queues", "bulk_all_due_retrievals", "custom_precedence_round_trips", "queue_monitor:get_current_events", "queue_monitor:add", "queue_monitor:get_last_timestamp", "suite:queue_monitor:get_event"]
 BUDGET_S = {"quick": 240, "thorough": 3000}
@@ -335,6 +335,33 @@ def _run_rand_body(case, obs, c, rng, nts, fl, ts_, m, hist, init, strict):
                 if len(q) == n0 + 1:
                     m.add(ev)
             hist.append(["add"] + list(map(str, key_of(ev))))
+        elif r < 0.43 and not strict:
+            # a bulk insertion fed by a user generator that fails part-way: the caller catches the exception and keeps using the
+            # queue; whatever prefix of the batch got in (read from the queue's own length) is pending, nothing else changed
+            evs = [c.make(rng.choice("UPR"), ts_(), rng.randrange(12)) for _ in range(rng.randint(1, 6))]
+            k_ok = rng.randint(0, len(evs) - 1)
+
+            def feed():
+                for j_, e_ in enumerate(evs):
+                    if j_ == k_ok:
+                        raise RuntimeError("user generator failed")
+                    yield e_
+
+            n0 = len(q)
+            try:
+                q.add_events(feed())
+                obs.violate("failing_generator_swallowed", "add_events consumed a generator that raises and reported nothing", history=hist[-12:])
+                return
+            except RuntimeError:
+                pass
+            got_in = len(q) - n0
+            if not (0 <= got_in <= k_ok):
+                obs.violate("len_wrong", f"add_events from a generator that failed after {k_ok} events: len grew by {got_in}", history=hist[-12:])
+                return
+            for e in evs[:got_in]:
+                m.add(e)
+            obs.ev("op:add_events_from_a_generator_failing_part_way")
+            hist.append(["add_events_failing", k_ok, got_in])
         elif r < 0.5:
             evs = [c.make(rng.choice("UPR"), ts_(), rng.randrange(12)) for _ in range(rng.randint(0, 6))]
             n0 = len(q)
